@@ -120,7 +120,7 @@ def run(ctx):
     dc = build_contracted(real)
     gold = golden.load()
     gold_ids = [ids[0] for ids in gold.values()]
-    nconf = ctx.n(5000, 500000)
+    nconf = ctx.n(15000, 1500000)
     for ci in range(nconf):
         vec = random_vector(rnd)
         n = len(vec)
@@ -217,7 +217,7 @@ def run(ctx):
 
     # --- random branch ----------------------------------------------------------------------------
     _random.seed(ctx.base_seed * 1000 + ctx.shard)
-    nrand = ctx.n(12, 600)
+    nrand = ctx.n(24, 1200)
     draws = 10000
     for ri in range(nrand):
         vec = random_vector(rnd, 12)
